@@ -167,6 +167,8 @@ class Run:
         for f in listed:
             self.say(f"KNOWN-FINDING: property={self.pid} {f.key} :: {f.message}")
         vlines = []
+        if getattr(self, "no_evidence", False):
+            replay_dir = os.path.join("/tmp", "gbsa-replay-%d" % os.getpid())
         if unlisted:
             os.makedirs(replay_dir, exist_ok=True)
         for k, f in enumerate(unlisted):
@@ -210,8 +212,9 @@ class Run:
             "wall_s": round(time.time() - self.t0, 3),
             "violations": len(unlisted),
         }
-        with open(os.path.join(EVIDENCE_DIR, f"{self.pid}.json"), "w") as fh:
-            json.dump(ev, fh, indent=1, default=str)
+        if not getattr(self, "no_evidence", False):
+            with open(os.path.join(EVIDENCE_DIR, f"{self.pid}.json"), "w") as fh:
+                json.dump(ev, fh, indent=1, default=str)
         self.say(
             f"{self.pid} [{self.tier}] obligations={self.obligations} discharged={self.discharged} "
             f"distinct={len(self.nontrivial)} rules={len(self.rules)} functions={len(self.functions)} "
